@@ -239,7 +239,11 @@ Fixpoint render_trace (s : fs) (m : list (nat * path)) (t : list sys) : list byt
   | [] => []
   | c :: r =>
     let '(s', res) := step c s in
-    let line := render_call m c ++ s2b "=" ++ (match res with None => s2b "ok" | Some e => errno_name e end) in
+    let line := render_call m c ++ s2b "=" ++
+                (match c with
+                 | SSetFlags _ _ => s2b "ignored"        (* internal/immutable ignores the ioctl result *)
+                 | _ => match res with None => s2b "ok" | Some e => errno_name e end
+                 end) in
     let m' :=
       match res, c with
       | None, SOpenDir p fd | None, SCreat p fd | None, SOpenRead p fd => (fd, p) :: m
@@ -408,3 +412,22 @@ Fixpoint spec_set (sp : spec) (p : path) (a : list (option bytes)) : spec :=
 
 Definition key_path (key : bytes) : option path :=
   match localize key with Some n => Some (store ++ n) | None => None end.
+
+(* ---- a whole group of differential operations (used by the vm_compute cross-check) ---- *)
+Inductive rop := RUp (key data : bytes) (imm : bool) | RFetch (key : bytes) | RDiscard (key : bytes).
+
+Fixpoint run_ops (st : rstate) (ops : list rop) : list bytes :=
+  match ops with
+  | [] => []
+  | o :: r =>
+    let '(line, st') :=
+      match o with
+      | RUp k d i => run_up st k d i
+      | RFetch k => run_fetch st k
+      | RDiscard k => run_discard st k
+      end in
+    line :: run_ops st' r
+  end.
+
+Definition run_group (cap mk : bool) (ops : list rop) : bytes :=
+  join_with x0a (run_ops (run_reset cap mk, []) ops).
